@@ -39,6 +39,21 @@ def hx(x):
     return float2hex(x)
 
 
+def translate(ctx):
+    import sys
+    sys.path.insert(0, str(ctx.verif / "tools"))
+    from gen import c17_statan as g
+    try:
+        frags, changed = g.run(ctx.repo, ctx.lean)
+    except g.Unreadable as e:
+        raise TieBroken("c17_statan", str(e))
+    except (OSError, ValueError) as e:
+        raise TieBroken("c17_statan", repr(e))
+    if changed:
+        ctx.log("Gen/StatanGen.lean regenerated: rescale block =", "; ".join(s for s, _, _ in frags["rescale"]),
+                "| selector =", frags["chiSel"][0])
+
+
 def reference(ctx, queries):
     """upper-tail probabilities from mpmath (python3-vt subprocess); list of floats-as-Fractions"""
     if not queries:
